@@ -150,8 +150,10 @@ func main() {
 					c.Fail("altered-header-accepted/"+part, id+"/"+k.Name, "Decrypt accepts a file whose header was altered ("+desc+")", det)
 				case rd != nil:
 					c.Fail("reader-with-error", id+"/"+k.Name, "Decrypt returned an error together with a reader", det)
-				case cr.n > len(newHdr)+4096:
-					c.Fail("payload-consumed-before-verdict", id+"/"+k.Name, fmt.Sprintf("Decrypt read %d bytes of a %d byte header before failing", cr.n, len(newHdr)), det)
+				}
+				if cr.n > len(newHdr)+4096 {
+					// informational only: the property does not bound read-ahead before the refusal
+					c.Outcome("refused after reading beyond header+4096 bytes")
 				}
 				c.Outcome(part + " rejected")
 			}
